@@ -13,7 +13,7 @@ from .trace import normalise
 
 # property id -> observer tag prefixes that decide it
 TAGS = {
-    "C04": ("C04_",),
+    "C04": ("C04_", "C07_NilNotInstalled", "C07_ErrMismatch"),
     "C05": ("C05_",),
     "C06": ("C06_",),
     "C07": ("C07_",),
@@ -132,6 +132,19 @@ def gen_scenario(rng, family, idx, mode):
     elif family == "C09" and rng.random() < 0.3:
         sc["pcancel"], sc["cancelok"] = 0.05, ["cli"]
     return sc
+
+
+def stress_scenario(rng, idx):
+    """Free-running: one reporter installing versions back to back, several readers spinning on ViewVersion."""
+    ops = []
+    for i in range(rng.randint(60, 120)):
+        ops.append({"op": "val", "v": {"x": 11 + (i % 3), "y": 14 + (i % 2), "u": False}})
+    procs = {"r1": ops}
+    for c in range(1, rng.randint(5, 8)):
+        procs["c%d" % c] = [{"op": "spin", "ms": rng.randint(40, 90)}]
+    return {"id": "C05-s-%d" % idx, "mode": "free", "seed": rng.randrange(1 << 30), "onnew": False, "onerr": False, "cbcap": 64,
+            "def": {"x": 1, "y": 2}, "skip": False, "delay": False, "suppress": False, "oracle": False, "maxsteps": 400,
+            "pcancel": 0.0, "cancelok": [], "init": [{"x": 11, "y": 0, "u": False}], "procs": procs}
 
 
 def run_chunk(vh, scratch, name, scenarios):
@@ -353,6 +366,8 @@ def run_check(pid, tier, replay=None):
         free = [gen_scenario(rng, pid, i, "free") for i in range(n_free)]
         for s in free:
             s["oracle"] = False
+        if pid == "C05":
+            free += [stress_scenario(rng, i) for i in range(6 if quick else 60)]
         scenarios += free
         events, crashes = run_scenarios(vh, scratch, scenarios, workers=12)
         violations = []
